@@ -120,6 +120,8 @@ def _jobs(tier, seed):
     for i, j in enumerate(jobs):
         if i % 3 == 0 and not j.get("list"):
             j["allcombos"] = True
+        if i % 9 == 4 and not j.get("list"):
+            j["debug"] = True
     rng = random.Random(2000003 * (seed + 1))
     k = 0
     while k < p["nrand"]:
@@ -213,7 +215,13 @@ def worker(job):
         text_or_grammar = text
     for tables in ("LALR", "SLR"):
         glrs[tables], _err = real.build("glr", text_or_grammar, tables=tables, consume_input=consume, **extra)
+    dbg_runs = {}
     for tables, ps, pse in COMBOS + (COMBOS_REST if job.get("allcombos") else []):
+        dparser = dglr = None
+        if job.get("debug") and (tables, ps, pse) == COMBOS[0]:
+            # the same parsers built with debug=True (round-4 seeded change C08-h: a debug print rewrote the skipped layout)
+            dparser, _e = real.build("lr", text_or_grammar, tables=tables, prefer_shifts=ps, prefer_shifts_over_empty=pse, build_tree=True, consume_input=consume, debug=True, **extra)
+            dglr, _e = real.build("glr", text_or_grammar, tables=tables, consume_input=consume, debug=True, **extra)
         parser, err = real.build("lr", text_or_grammar, tables=tables, prefer_shifts=ps, prefer_shifts_over_empty=pse, build_tree=True,
                                  consume_input=consume, **extra)
         grammar = parser.grammar if parser else (glrs[tables].grammar if glrs[tables] else None)
@@ -229,13 +237,21 @@ def worker(job):
             if (tables, wkey) not in glr_runs:
                 glr_runs[(tables, wkey)] = _run_glr(real, glrs[tables], w) if glrs[tables] else {"kind": "nobuild", "n": 0, "trees": [], "exc": NOEXC}
             lr = _run_lr(real, parser, w) if parser else {"kind": "nobuild", "tree": NOTREE, "exc": NOEXC}
+            hasdbg = (dparser is not None or dglr is not None) and len(dbg_runs) < 6 and len(wkey) <= 8
+            lrdbg, glrdbg = {"kind": "none", "tree": NOTREE, "exc": NOEXC}, {"kind": "none", "n": 0, "trees": [], "exc": NOEXC}
+            if hasdbg:
+                dbg_runs[wkey] = True
+                if dparser is not None:
+                    lrdbg = _run_lr(real, dparser, w)
+                if dglr is not None:
+                    glrdbg = _run_glr(real, dglr, w)
             out.append({
                 "name": "%s [%s,ps=%d,pse=%d%s%s] @ %r" % (gen.gname(g), tables, ps, pse, "" if consume else ",prefix", (",list-input" + ("(last terminal a string)" if job.get("strlast") else "") if job.get("list") else "") + (",LAYOUT-rule" if job.get("extra") else ""), w),
                 "listinput": bool(job.get("list")), "overlap": bool(job.get("overlap")),
                 "gtext": text, "tables": tables, "ps": ps, "pse": pse, "prio": False, "consume": consume, "origin": job["origin"],
                 "built": parser is not None, "build_err": err or "", "prods": prods, "terms": terms, "tbl": tbl,
                 "inputstr": wkey, "input": [ord(c) for c in wkey], "n": len(w), "skip": real.skip_table(w, ws), "match": real.match_table(grammar, w),
-                "lr": lr, "glr": glr_runs[(tables, wkey)],
+                "lr": lr, "glr": glr_runs[(tables, wkey)], "hasdbg": hasdbg, "lrdbg": lrdbg, "glrdbg": glrdbg,
             })
     return out
 
